@@ -1,3 +1,46 @@
 //! verification hooks: sched (guarded by cfg ordinals_ord_verif)
+//!
+//! Named crash points on the indexing, savepoint and rollback path. A harness
+//! arms one of them with `arm(kind, n)`; the n-th time a crash point of that
+//! kind is reached the process aborts (no destructors run, as in a real crash).
 #![allow(unused_imports, dead_code)]
 use super::*;
+use std::sync::atomic::{AtomicU64, Ordering};
+
+/// 0 = disarmed, 1 = "commit" (just after a redb commit on the indexing path),
+/// 2 = "block" (in the middle of indexing a block)
+static KIND: AtomicU64 = AtomicU64::new(0);
+static AT: AtomicU64 = AtomicU64::new(0);
+static COUNT: AtomicU64 = AtomicU64::new(0);
+
+fn kind_code(kind: &str) -> u64 {
+  match kind {
+    "commit" => 1,
+    "block" => 2,
+    _ => 0,
+  }
+}
+
+pub fn arm(kind: &str, n: u64) {
+  COUNT.store(0, Ordering::SeqCst);
+  AT.store(n, Ordering::SeqCst);
+  KIND.store(kind_code(kind), Ordering::SeqCst);
+}
+
+pub fn disarm() {
+  KIND.store(0, Ordering::SeqCst);
+}
+
+pub fn reached() -> u64 {
+  COUNT.load(Ordering::SeqCst)
+}
+
+pub fn crash_point(kind: &'static str) {
+  let armed = KIND.load(Ordering::SeqCst);
+  if armed != 0 && armed == kind_code(kind) {
+    let count = COUNT.fetch_add(1, Ordering::SeqCst) + 1;
+    if count == AT.load(Ordering::SeqCst) {
+      std::process::abort();
+    }
+  }
+}
